@@ -247,6 +247,14 @@ def lam(f):
 
 
 def seq_concat(a, b):
+    r = _seq_concat(a, b)
+    t = getattr(a, 'tag', None) or getattr(b, 'tag', None)
+    if t is not None and isinstance(r, SSeq):
+        r.tag = t
+    return r
+
+
+def _seq_concat(a, b):
     if isinstance(a, str) and isinstance(b, str):
         return a + b
     kind = 'str' if is_str(a) else 'ilist'
